@@ -1,7 +1,8 @@
 /-
   Model driver: reads the same case lines as the Rust harness (`hx run`) and prints, per line,
   `<model outcome>` and, where a specification applies, ` | S <spec outcome>`.
-  usage: driver <cfg> <release|dbg>
+  usage: driver <cfg>
+  A trailing ` !trap` on the model part means: a debug-assertion / overflow-check build panics here.
 -/
 import MinLex.Model.Env
 open MinLex
@@ -149,10 +150,10 @@ def vecHistory (cap : Option Nat) (spec : String) : String :=
       | "norm" => ("ok", normalize a, b)
       | "adds" => match smallAdd cap a (parseNat (arg 1)) with
         | some v => ("ok", v, b)
-        | none => ("none", a, b)
+        | none => ("none", (smallAddAux (parseNat (arg 1)) a).1, b)   -- limbs already updated in place
       | "muls" => match smallMul cap a (parseNat (arg 1)) with
         | some v => ("ok", v, b)
-        | none => ("none", a, b)
+        | none => ("none", (smallMulAux (parseNat (arg 1)) 0 a).1, b)  -- only the carry push failed
       | "fromu64" => ("ok", fromU64 (parseNat (arg 1)), b)
       | "clone" => ("ok", a, a)
       | "swap" => ("ok", b, a)
@@ -242,7 +243,7 @@ def fnvMix (h v : UInt64) : UInt64 := (h ^^^ v) * 0x100000001b3
 
 def i64bits (x : Int) : UInt64 := UInt64.ofNat (x % (u64Mod : Int)).toNat
 
-def runCase (E : Env) (dbg : Bool) (line : String) : String :=
+def runCase (E : Env) (line : String) : String :=
   let t := (line.splitOn " ").filter (· ≠ "")
   let arg (i : Nat) : String := t.getD i ""
   match arg 0 with
@@ -260,10 +261,10 @@ def runCase (E : Env) (dbg : Bool) (line : String) : String :=
         | none => "panic"
     else
     let out := parseFloat E F int frac e
-    let out := if dbg && parseFloatTraps E F int frac e then Outcome.panic else out
     let m := match out with
       | .ok b => s!"v {hex b}"
       | .panic => "panic"
+    let m := if parseFloatTraps E F int frac e then m ++ " !trap" else m
     let m := if arg 0 == "al" then
         let num := parseNumber int frac e
         let isSlow := match tryFastPath F (E.powFastPath F) (intPow10 E.cfg.compact E.pow.smallIntPow10) num with
@@ -276,8 +277,8 @@ def runCase (E : Env) (dbg : Bool) (line : String) : String :=
     if validB int frac e then m ++ s!" | S v {hex (specParse F.fmt int frac e)}" else m
   | "pn" =>
     let n := parseNumber (decodeBytes (arg 1)) (decodeBytes (arg 2)) (parseInt (arg 3))
-    if dbg && parseNumberTraps (decodeBytes (arg 1)) (decodeBytes (arg 2)) (parseInt (arg 3)) then "panic"
-    else s!"{n.mantissa} {n.exponent} {b01 n.manyDigits}"
+    s!"{n.mantissa} {n.exponent} {b01 n.manyDigits}" ++
+      (if parseNumberTraps (decodeBytes (arg 1)) (decodeBytes (arg 2)) (parseInt (arg 3)) then " !trap" else "")
   | "fp" =>
     let F := fmtOf (arg 1)
     let n : Number := ⟨parseInt (arg 3), parseNat (arg 2), arg 4 == "1"⟩
@@ -289,10 +290,10 @@ def runCase (E : Env) (dbg : Bool) (line : String) : String :=
     let F := fmtOf (arg 1)
     let n : Number := ⟨parseInt (arg 3), parseNat (arg 2), arg 4 == "1"⟩
     let r := moderatePath E F n
-    let trap := dbg && !E.cfg.compact && lemireTraps E.lem F n
+    let trap := !E.cfg.compact && lemireTraps E.lem F n
     let lo := rneDec F.fmt n.mantissa n.exponent false
     let hi := rneDec F.fmt (n.mantissa + 1) n.exponent true
-    (if trap then "panic" else optFp r) ++ s!" | S {hex lo} {hex hi}"
+    optFp r ++ (if trap then " !trap" else "") ++ s!" | S {hex lo} {hex hi}"
   | "est" =>
     -- est <fmt> <w> <q> <t> <mant> <exp>: EstOK of an (implementation) declined estimate at both
     -- ends of the input interval
@@ -313,7 +314,7 @@ def runCase (E : Env) (dbg : Bool) (line : String) : String :=
   | "cf" => let F := fmtOf (arg 1); optFp (computeFloat E.lem F (parseInt (arg 2)) (parseNat (arg 3)))
   | "ce" =>
     let F := fmtOf (arg 1)
-    if dbg && parseNat (arg 3) == 0 then "panic" else optFp (computeError E.lem F (parseInt (arg 2)) (parseNat (arg 3)))
+    optFp (computeError E.lem F (parseInt (arg 2)) (parseNat (arg 3))) ++ (if parseNat (arg 3) == 0 then " !trap" else "")
   | "ces" => let F := fmtOf (arg 1); fpStr (computeErrorScaled F (parseInt (arg 2)) (parseNat (arg 3)) (parseInt (arg 4)))
   | "belnorm" =>
     let r := belNormalize ⟨parseNat (arg 1), parseInt (arg 2)⟩
@@ -329,7 +330,6 @@ def runCase (E : Env) (dbg : Bool) (line : String) : String :=
       | "lt" => roundNearestTieEven (cbOrdering .lt)
       | "eq" => roundNearestTieEven (cbOrdering .eq)
       | _ => roundNearestTieEven (cbTruncatedAbove true)
-    if dbg && roundTraps F fp then "panic" else
     let r := round F cb fp
     let v := ofDyadic fp.mant (fp.exp - F.exponentBias)
     let spec := match arg 2 with
@@ -337,7 +337,7 @@ def runCase (E : Env) (dbg : Bool) (line : String) : String :=
       | "dn" => s!" | S {hex (rneTrunc F.fmt v)}"
       | _ => ""
     let spec := if fp.mant ≥ 9223372036854775808 ∧ fp.exp ≥ -63 ∧ fp.exp ≤ 5000 then spec else ""
-    s!"{r.mant} {r.exp} {hex (extendedToFloat F r)}" ++ spec
+    s!"{r.mant} {r.exp} {hex (extendedToFloat F r)}" ++ (if roundTraps F fp then " !trap" else "") ++ spec
   | "rnte" => fpStr (roundNearestTieEven cbNearestEven ⟨parseNat (arg 1), parseInt (arg 2)⟩ (parseNat (arg 3)))
   | "rdn" => fpStr (roundDown ⟨parseNat (arg 1), parseInt (arg 2)⟩ (parseNat (arg 3)))
   | "mask" =>
@@ -373,14 +373,13 @@ def runCase (E : Env) (dbg : Bool) (line : String) : String :=
   | "e2f" =>
     let F := fmtOf (arg 1)
     let fp : ExtFloat := ⟨parseNat (arg 2), parseInt (arg 3)⟩
-    if dbg && extendedToFloatTraps F fp then "panic" else hex (extendedToFloat F fp)
+    hex (extendedToFloat F fp) ++ (if extendedToFloatTraps F fp then " !trap" else "")
   | "u2f" => let F := fmtOf (arg 1); hex (floatFromU64 F (parseNat (arg 2)))
   | "pm" =>
     let s := parseMantissaPM E.cap E.pow (decodeBytes (arg 1)) (decodeBytes (arg 2)) (parseNat (arg 3))
-    if dbg && s.trap then "panic" else
     (match s.result with
      | some r => s!"{fmtLimbs r} {s.count}"
-     | none => "panic")
+     | none => "panic") ++ (if s.trap then " !trap" else "")
   | "sci" => toString (scientificExponent ⟨parseInt (arg 2), parseNat (arg 1), false⟩)
   | "pdc" =>
     let F := fmtOf (arg 1)
@@ -411,16 +410,15 @@ def runCase (E : Env) (dbg : Bool) (line : String) : String :=
   | "" => ""
   | _ => if line.startsWith "#" then "" else s!"unknown-command {arg 0}"
 
-partial def loop (E : Env) (dbg : Bool) (hin : IO.FS.Stream) (hout : IO.FS.Stream) : IO Unit := do
+partial def loop (E : Env) (hin : IO.FS.Stream) (hout : IO.FS.Stream) : IO Unit := do
   let line ← hin.getLine
   if line.isEmpty then return ()
   let l := String.ofList (line.toList.filter (fun c => c != '\n' && c != '\r'))
-  hout.putStrLn (runCase E dbg l)
-  loop E dbg hin hout
+  hout.putStrLn (runCase E l)
+  loop E hin hout
 
 def main (args : List String) : IO Unit := do
   let cfg := cfgOfString (args.getD 0 "std")
-  let dbg := args.getD 1 "release" == "dbg"
   let hin ← IO.getStdin
   let hout ← IO.getStdout
-  loop (genEnv cfg) dbg hin hout
+  loop (genEnv cfg) hin hout
